@@ -169,7 +169,7 @@ def work(item, ctx):
                 cfg = H.full_config(rng, ns, minimal=True)
             else:
                 if mode < 0.45:
-                    drop = tuple(rng.sample(["1003", "1006", "1014", "1017", "1005", "1018", "1016", "1280", "1010", "14xx", "18xx"], rng.randint(1, 3)))
+                    drop = tuple(rng.sample(["1003", "1006", "1014", "1017", "1005", "1018", "1016", "1280", "1010", "14xx", "18xx", "subs", "subs", "subs"], rng.randint(1, 3)))
                 cfg = H.full_config(rng, ns, drop=drop, fill=0xA5 if rng.random() < 0.05 else 0)
             g = H.Hostile(rng, cfg, ns)
             lines = g.history(rng.choice([30, 60, 120, 300]))
